@@ -353,8 +353,28 @@ fn pick_domain<F: PrimeField, D: DomKind<F>>(
             (d0.group_gen().pow([j]), "offset=in-subgroup", false)
         },
     };
+    let mut h = h;
     let d = if plain {
         d0
+    } else if t.chance(1, 5) {
+        // construction history: the coset is taken from a domain that already is a coset (get_coset documents a subgroup
+        // domain as its receiver, so nothing is assumed about which offset results: every oracle below uses the offset the
+        // resulting domain reports, and the accessors of that domain must be consistent with each other)
+        let mid = if t.bool() { F::GENERATOR } else { felt_nonzero::<F>(t) };
+        let dm = match no_panic("get_coset", || d0.get_coset(mid))? {
+            Some(d) => d,
+            None => return Err(vh_core::Fail { sig: "get_coset.none".into(), msg: format!("get_coset({}) = None", mid) }),
+        };
+        let d = match no_panic("get_coset", || dm.get_coset(h))? {
+            Some(d) => d,
+            None => return Err(vh_core::Fail { sig: "get_coset.none".into(), msg: format!("get_coset({}) on a coset = None", h) }),
+        };
+        o.class("coset-of-a-coset");
+        h = d.coset_offset();
+        ensure!(d.coset_offset_inv() * h == F::one(), "recoset.offset_inv", "coset_offset_inv * coset_offset != 1 after get_coset on a coset");
+        ensure!(d.coset_offset_pow_size() == h.pow([size]), "recoset.offset_pow_size", "coset_offset_pow_size != coset_offset^size after get_coset on a coset (offset {})", h);
+        ensure!(d.size() as u64 == size && d.group_gen() == d0.group_gen(), "recoset.group", "get_coset on a coset changed the subgroup");
+        d
     } else {
         match no_panic("get_coset", || d0.get_coset(h))? {
             Some(d) => d,
